@@ -1,5 +1,5 @@
 (* Properties/C08.v — C08: static output order: file order kept, sequences sorted, row order irrelevant. *)
-From GV Require Import Base.Prelude Base.Sort Model.Realtime Model.Static Proofs.StaticProofs Proofs.OrderProofs.
+From GV Require Import Base.Prelude Base.Sort Model.Realtime Model.Static Proofs.StaticProofs Proofs.OrderProofs Gen.Comparators Proofs.ComparatorProofs.
 From Coq Require Import Permutation Sorted.
 
 (* within a trip the stop times are in ascending stop_sequence (distinct sequences) *)
@@ -45,3 +45,12 @@ Theorem C08_shapes_rows_any_order : forall pf hdr rows rows',
   parse_shapes pf hdr rows = parse_shapes pf hdr rows'.
 Proof. exact shapes_rows_any_order. Qed.
 Print Assumptions C08_shapes_rows_any_order.
+
+(* ---- tie to the source: the callbacks of sort.Slice(trip.StopTimes, ...), sort.Slice(rows, ...) and sort.Slice(shapes, ...)
+   are TRANSLATED from static.go on every run (Gen/Comparators.v) and are the comparisons the model sorts with ---- *)
+Theorem C08_comparators_from_source :
+  (forall a b, gen_stop_time_less a b = (st_seq a <? st_seq b)) /\ (forall a b, gen_shape_row_less a b = (sr_seq a <? sr_seq b)) /\
+  (forall a b, gen_shape_less a b = String.ltb (sh_id a) (sh_id b)) /\
+  In ("parseScheduledStopTimes", "trip.StopTimes") sort_sites /\ In ("parseShapes", "rows") sort_sites /\ In ("parseShapes", "shapes") sort_sites.
+Proof. refine (conj gen_stop_time_less_ok (conj gen_shape_row_less_ok (conj gen_shape_less_ok (conj _ (conj _ _))))); vm_compute; tauto. Qed.
+Print Assumptions C08_comparators_from_source.
